@@ -411,6 +411,19 @@ pub fn search(tier: &str, seed: u64, s: &mut Search) {
             run(&mut wk, s, "turbulence-seed", &svg, 20, 20, tiny_skia::Transform::identity());
         }
     }
+    // every small seed, at a frequency that visits many lattice cells: a gradient vector the generator leaves at (0, 0)
+    // cannot be normalised (seed 346 is the first)
+    for sd in 0..(if tier == "thorough" { 4000 } else { 700 }) {
+        let svg = format!(r##"<svg xmlns="http://www.w3.org/2000/svg" width="24" height="24"><filter id="f" x="0" y="0" width="1" height="1"><feTurbulence baseFrequency="0.93 0.71" numOctaves="1" seed="{sd}"/></filter><rect width="24" height="24" filter="url(#f)"/></svg>"##);
+        run(&mut wk, s, "turbulence-every-seed", &svg, 24, 24, tiny_skia::Transform::identity());
+    }
+    // feTurbulence with many octaves: the lattice coordinate doubles per octave and leaves every integer type
+    for oct in ["30", "53", "62", "63", "64", "65", "100", "255", "2147483648"] {
+        for ty in ["turbulence", "fractalNoise"] {
+            let svg = format!(r##"<svg xmlns="http://www.w3.org/2000/svg" width="16" height="16"><filter id="f"><feTurbulence type="{ty}" baseFrequency="0.05 0.3" numOctaves="{oct}" stitchTiles="{}"/></filter><rect width="16" height="16" filter="url(#f)"/></svg>"##, if oct.len() % 2 == 0 { "stitch" } else { "noStitch" });
+            run(&mut wk, s, "turbulence-octaves", &svg, 16, 16, tiny_skia::Transform::identity());
+        }
+    }
     // generated documents × canvases × transforms
     let n = (if tier == "thorough" { 2500 } else { 220 }) * mult;
     for i in 0..n {
